@@ -9,6 +9,8 @@ import os
 from mc.core import HarnessError, VERIF
 
 PID = 'C09'
+# thread bodies (defined with engine E4, mc/checks/c10_sched.py) that exercise this property's code; explored after the parts below
+SCHED_SETS = [('fire||fire', 'line'), ('fire||fire(G1)', 'line')]
 LEVEL = 'exploration'
 ENGINE = 'E1'
 TECHNIQUE = 'bounded exhaustive enumeration of all custom tables (3..5 nodes over a 6-Mach x 3-CD alphabet) and the nine shipped tables at every critical point (nodes, midpoints, +-1 ulp, interior grid, beyond the table) against a Lagrange-parabola reference; band/positivity decided analytically per identified quadratic piece'
